@@ -331,6 +331,21 @@ def _chain_builder(model: Model, rep: Report, f: FunctionInfo, self_cls: Optiona
                 seen_rel = True
                 if dict(st[2]).get("reference_index_kernel") != last:
                     bad.append(f"kernel chained to {show(dict(st[2]).get('reference_index_kernel'))} instead of the previous kernel")
+            elif st is not None and st[0] == "ite" and st[2][0] == "new" and st[3][0] == "new":
+                # 'previous kernel' form: a carried reference that starts as None and is re-bound to every new kernel
+                c_, a_, b_ = st[1], st[2], st[3]
+                if c_[0] == "not":
+                    c_, a_, b_ = c_[1], b_, a_
+                prev = c_[2] if (c_[0] == "eq" and c_[1] == NONE) else (c_[1] if (c_[0] == "eq" and c_[2] == NONE) else None)
+                okc = prev is not None and prev[0] == "loopvar" and prev[2] == lp.node.lineno and lp.extra["init_env"].get(prev[1]) == NONE \
+                    and a_[1] == "FixedIndexStrategy" and number(dict(a_[2]).get("index", ZERO)) == 0 \
+                    and b_[1] == "RelativeIndexStrategy" and dict(b_[2]).get("reference_index_kernel") == prev
+                nxt = bp.env.get(prev[1]) if okc else None
+                kk = apps[0][2][0]
+                if okc and nxt is not None and (nxt == kk or (nxt[0] == "var" and kk[0] == "var" and nxt[1:3] == kk[1:3])):
+                    seen_fixed = seen_rel = True
+                else:
+                    bad.append(f"offset strategy {show(st)[:140]} is not 'fixed at 0 for the first kernel, relative to the previous kernel afterwards'")
             elif st is not None and st[0] == "loopvar" and st[2] == lp.node.lineno and st[1] in lp.extra["init_env"]:
                 # carried form: the strategy starts fixed at 0 and, after every kernel, is re-bound to 'relative to that kernel'
                 init_st = lp.extra["init_env"][st[1]]
